@@ -97,7 +97,7 @@ pub fn c14(out: &mut dyn Write, tier: &str, rng: &mut Rng, st: &mut Stats) {
         let mut names: Vec<String> = Vec::new();
         while names.len() < k { let nm = rng.pick(&pool[..]).to_string(); if !names.contains(&nm) { names.push(nm); } }
         let depth = 1 + rng.below(4) as u32;
-        let gf = { let mut g = Gen { rng, names, allow_fix: i % 6 == 0, big_consts: false, max_list: 3 }; g.gen(depth, &HashMap::new()) };
+        let gf = { let mut g = Gen { rng, names, allow_fix: i % 6 == 0, big_consts: i % 4 == 1, max_list: 3 }; g.gen(depth, &HashMap::new()) };
         let text = Printer { rng, noise: false }.print(&gf);
         crate::watchdog::enter(&text);
         let pf = match parse_text(text.as_bytes(), None) { Parsed::Ok(pf) => pf, _ => { crate::watchdog::leave(); continue; } };
